@@ -7,4 +7,30 @@ PROPS = {
                   "file's ID window and the reserved range, order preserving, sentinel-safe, and refuses every id outside the window at capture time.",
         "assumptions": ["not covered: non-ID analyzer state, that every ID-bearing field is serialised through these impls (serde derive), thread-local session plumbing"],
     },
+    "C12": {
+        "units": ["tokpos"],
+        "level": "proof",
+        "clause": "split_comment_token: every comment split out of a merged comment run reports the line, 1-based character column, absolute byte offset and byte "
+                  "length of its regex match, in match order, for any number/size of comments and any UTF-8 text (Verus, unbounded).",
+        "assumptions": ["not covered: positions parol's lexer assigns to ordinary tokens (external dependency), Token::end_line/end_column, token_range arithmetic",
+                        "assumed: byte model of &str (utf8() uninterpreted, chars = non-continuation bytes), regex matches are in-bounds/ordered/non-overlapping and on char boundaries"],
+    },
+    "C17": {
+        "units": ["value64", "opeval"],
+        "level": "proof",
+        "clause": "For every operator except ** , every operand value (2- and 4-state), every operand width 0..64 (0 = unsized all-bit literal), every context width 1..64 and "
+                  "both signednesses, Op::eval_value_unary/eval_value_binary return the IEEE 1800 value (reference model units/opeval/harness.rs), stay in the <=64-bit "
+                  "representation and keep the representation invariant; Value::{expand,trunc,select,concat,assign,set_value} and the ValueU64 primitives meet their bit-level "
+                  "contracts (Kani/CBMC, loop-free harnesses over fully symbolic inputs = complete).",
+        "assumptions": ["not covered: Op::Pow, widths above 64 bits (BigUint arms), agreement of the two representations, literal parsing establishing the representation invariant",
+                        "assumed: Value.signed flags of operands agree with the type-level signedness passed as `signed` (signed ==> operands signed)",
+                        "machine 64-bit multiply/divide/remainder are uninterpreted in the complete proofs (rule E10) and cross-checked only at context width <= 8 (bounded stand-ins)"],
+    },
+    "C18": {
+        "units": ["opeval"],
+        "level": "proof",
+        "clause": "Interpreter engine, widths <= 64: Expression::eval (crates/simulator/src/ir/expression.rs) evaluates Unary/Binary nodes by calling exactly Op::eval_value_unary / "
+                  "Op::eval_value_binary, which are proved equal to the IEEE 1800 reference for all values and widths <= 64 (same contract as C17), so run-time == compile-time there.",
+        "assumptions": ["not covered: Cranelift and AOT-C lowering, widths above 64 bits (unit wide pending), that Expression::eval passes the same (width, signed) as the analyzer"],
+    },
 }
